@@ -292,11 +292,14 @@ def gen_algo(rng, dim: int, tier: str) -> dict:
     if kind == "sga":
         pop = rng.randint(2, 20 if big else 8)
         mutation = rng.choice(["uniform", "gaussian", "polynomial"])
+        crossover = rng.choice(["single", "exponential", "binomial", "sbx"])
+        if crossover == "sbx" and pop % 2:  # pygmo: sbx needs an even population
+            pop += 1
         return {"type": "sga", "generations": rng.randint(1, 12 if big else 5), "population_size": pop,
                 "cr": _r(rng, 0.3, 1.0), "m": _r(rng, 0.02, 0.7), "eta_c": _r(rng, 1.0, 10.0),
                 "param_m": _r(rng, 1.0, 20.0) if mutation == "polynomial" else _r(rng, 0.05, 1.0),
                 "param_s": rng.randint(1, min(pop, 3)),
-                "crossover": rng.choice(["single", "exponential", "binomial", "sbx"]),
+                "crossover": crossover,
                 "mutation": mutation,
                 "selection": rng.choice(["tournament", "truncated"])}
     return {"type": "nlopt", "generations": 1, "population_size": rng.randint(1, 4),
